@@ -440,12 +440,11 @@ def run(ctx):
     ctx.log("spec checked %d pairs: %d flagged" % (ctx.counts.get("spec_pairs_checked", 0), len(spec_flagged)))
     ctx.notes["distribution"] = {"games": n_games, "pairs": len(results), "model_pairs": len(model_items), "spec_pairs": len(spec_items)}
     ctx.notes["theorem_status"] = {
-        "proved_for_every_move_kind": ["C15_restore", "C15_restored_not_rejected", "C15_undo_alternatives", "C15_complete_given_raw",
-                                       "C15_makeMove_fields", "C15_clock_zero", "C15_consistent_partial", "C15_premises_decidable"],
-        "C15_complete_partial": "all legal moves of queen, rook, bishop, knight and king (non-castling), from legality by the FIDE spec",
-        "C15_complete_doublepush_ep": "the double push that leaves an e.p. square (given MoveFacts, evaluated per pair by the check)",
-        "statements_only": ["C15_complete_statement (open: genMovesNoUndoInfo lists the move for castling and for pawn moves other than the double push with e.p. square)",
-                            "C15_consistent_statement (legality in the restored position and the board round trip are decided by the finder only)",
+        "C15_complete": "proved for every legal move (FIDE spec): queen, rook, bishop, knight, king, castling, pawn pushes/double pushes/captures/promotions/e.p. captures",
+        "supporting": ["C15_restore", "C15_restored_not_rejected", "C15_undo_alternatives", "C15_complete_given_raw", "C15_complete_castling",
+                       "C15_complete_pawn", "C15_pawn_move_forms", "C15_makeMove_fields", "C15_clock_zero", "C15_premises_decidable"],
+        "C15_consistent_partial": "what knownInvalid guarantees for every reported un-move",
+        "statements_only": ["C15_consistent_statement (legality in the restored position and the board round trip are decided by the finder)",
                             "C15_nodup_statement (duplicates are looked for in every list)"]}
 
     if not (proof_broken or disagreements or flagged or spec_flagged or crashed):
